@@ -195,9 +195,18 @@ class C13(Prop):
             g = make_grid(spec)
             if rng.random() < 0.7 or (nsub_big is not None and spec["kind"] == "cart" and dim == 3):
                 amp = rng.choice([4, 8, 12])
-                spec["pert"] = [[rng.randint(-amp, amp) for _ in range(dim)]
-                                for _ in range(g.num_nodes)]
-                g = make_grid(spec)
+                nn = g.num_nodes
+                for _try in range(6):
+                    spec["pert"] = [[rng.randint(-amp, amp) for _ in range(dim)]
+                                    for _ in range(nn)]
+                    g = make_grid(spec)
+                    vol = g.cell_volumes
+                    # reject perturbations that flatten a cell (not a valid grid; see c11.py)
+                    if np.all(np.isfinite(g.cell_centers)) and vol.min() > 1e-3 * vol.mean():
+                        break
+                else:
+                    spec.pop("pert")
+                    g = make_grid(spec)
             if rng.random() < 0.4 and roller is None and not extra.get("update"):
                 # rigid motion / power-of-two scaling; the topology does not change
                 spec["embed"] = embed_spec(rng)
